@@ -100,6 +100,22 @@ def gen(chk):
     for _ in range(200 if not thorough else 1500):
         R, C = rng.randint(0, 7), rng.randint(0, 7)
         cases.append(rand_given(rng, R, C, rng.choice(['int', 'bool', 'float'])))
+    # matrices with more stored cells than an 8-bit offset can count although both dimensions are small
+    # (row pointers count stored cells, not rows or columns): a hand-given CSR triple and a built one
+    for (R, C) in ([(17, 18)] if not thorough else [(17, 18), (16, 16), (20, 20)]):
+        big = rand_given(rng, R, C, 'int')
+        row, col, data = [0], [], []
+        for r in range(R):
+            cs = [c for c in range(C) if (r + c) % 11 != 0]
+            rng.shuffle(cs)
+            col += cs
+            data += [1 + (r * 7 + c) % 3 for c in cs]
+            row.append(len(col))
+        big.update({'row': row, 'col': col, 'data': data})
+        cases.append(big)
+        ops = [(r, c, 1 + (r + 2 * c) % 3) for r in range(R) for c in range(C) if (r * c) % 13 != 1]
+        rng.shuffle(ops)
+        cases.append(build_case(R, C, ops, 'int'))
     return cases, n_exh
 
 
